@@ -55,7 +55,12 @@ Bodies == {
                BC(<<"c">>, IntV(3), <<"L:about c">>, "", TRUE)>>),                                \* trivia
   SetV(TRUE, <<BC(<<"a">>, IntV(1), <<>>, "", FALSE), BC(<<"b">>, IntV(2), <<>>, "", TRUE),
                BC(<<"f", "x">>, IntV(3), <<"L:fam">>, "", TRUE)>>),
-  RecV(TRUE, <<B(<<"a">>, IntV(1)), B(<<"b">>, RefV("a"))>>)
+  RecV(TRUE, <<B(<<"a">>, IntV(1)), B(<<"b">>, RefV("a"))>>),
+  SetV(TRUE, <<B(<<"a">>, IntV(1)), Inh(<<"lib">>), B(<<"c">>, IntV(3))>>),                          \* inherit entry
+  SetV(TRUE, <<B(<<"a'">>, IntV(1)), B(<<"a b">>, IntV(2)), B(<<"s">>, SetV(FALSE, <<B(<<"x.y">>, IntV(1))>>))>>),   \* names that need quoting
+  SetV(TRUE, <<B(<<"s">>, SetV(TRUE, <<B(<<"t">>, SetV(TRUE, <<B(<<"x">>, IntV(1))>>)), B(<<"y">>, IntV(2))>>))>>),        \* three levels
+  SetV(FALSE, <<B(<<"a">>, IntV(1)), B(<<"b">>, IntV(2))>>),                                          \* inline, two bindings
+  [SetV(TRUE, <<B(<<"a">>, IntV(1))>>) EXCEPT !.dang = <<"L:dangling">>]                               \* comment before the closing brace
 }
 LayerStacks == {
   <<>>,
@@ -63,7 +68,8 @@ LayerStacks == {
   << <<B(<<"u">>, IntV(1)), B(<<"w">>, IntV(2))>> >>,
   << <<B(<<"u">>, IntV(1))>>, <<B(<<"u">>, IntV(2)), B(<<"w">>, IntV(3))>> >>,
   << <<B(<<"u">>, IntV(1))>>, <<B(<<"u">>, IntV(2))>>, <<B(<<"u">>, IntV(3))>> >>,
-  << <<B(<<"s">>, SetV(FALSE, <<B(<<"x">>, IntV(1)), B(<<"y">>, IntV(2))>>))>> >>
+  << <<B(<<"s">>, SetV(FALSE, <<B(<<"x">>, IntV(1)), B(<<"y">>, IntV(2))>>))>> >>,
+  << <<B(<<"g", "x">>, IntV(1)), B(<<"g", "y">>, IntV(2)), B(<<"u">>, IntV(3))>> >>                   \* attrpath family in a layer
 }
 PlainWrap == { <<>> }
 MapLayers == { <<>>, << <<B(<<"u">>, IntV(1))>> >>, << <<B(<<"u">>, IntV(1)), B(<<"w">>, IntV(2))>> >> }
@@ -95,8 +101,9 @@ NewValues == { IntV(7), SetV(FALSE, <<B(<<"k">>, IntV(7))>>), OpqV("[ 1 2 ]") }
 Ops(d) ==
     LET sels == 0..(Len(d.layers) + 2) IN
     UNION { LET I == IF HasLayer(d, s) THEN ItemsAt(d, s) ELSE <<>> IN
-            { [f |-> "set", sel |-> s, path |-> p, v |-> v] : p \in RelevantPaths(I), v \in NewValues }
-              \cup { [f |-> "rm", sel |-> s, path |-> p, v |-> IntV(0)] : p \in RelevantPaths(I) }
+            \* a name introduced by `inherit' is a reference into the enclosing scope: editing it is C11's business
+            { [f |-> "set", sel |-> s, path |-> p, v |-> v] : p \in {q \in RelevantPaths(I) : Inherited(I, q) = {}}, v \in NewValues }
+              \cup { [f |-> "rm", sel |-> s, path |-> p, v |-> IntV(0)] : p \in {q \in RelevantPaths(I) : Inherited(I, q) = {}} }
           : s \in sels }
 
 -----------------------------------------------------------------------------
